@@ -68,6 +68,12 @@ def main():
                     time.sleep(3600)
                 if b == 'late':
                     time.sleep(timeout + 0.35)
+                if b == 'spawn_child':
+                    # replayed code that hands work to a helper process of its own
+                    import multiprocessing
+                    child = multiprocessing.Process(target=time.sleep, args=(0.01,))
+                    child.start()
+                    child.join()
                 if b == 'die_idle':
                     # the worker answers this replay normally and is killed a moment later while it sits idle between replays
                     import signal
